@@ -265,9 +265,10 @@ func c14Setup() {
 
 func init() {
 	fw.Register(&fw.Check{
-		ID:        "C14",
-		QuickS:    60,
-		ThoroughS: 600,
+		ID:              "C14",
+		PanicOutOfScope: true,
+		QuickS:          60,
+		ThoroughS:       600,
 		Rule: "model: the token-class abstraction (admissible word -> n, digit run -> 1, single spaces vanish, no fold rule fires) is model-checked exhaustively: all 62 sequences in {n,1}^1..5 must be absent from the current blacklist (real look-up). " +
 			"conformance of the abstraction: every identifier of length <=3 over [a-z_][a-z0-9_]* in lower/UPPER/Capitalised form plus a word list, filtered by the table rule (not a key, not a component of a key), lexes to exactly one bareword and is not SQLi; " +
 			"digit runs lex to one number; every sequence of <=7 (quick) / <=8 (thorough) items over a 10-item word/number set joined by single spaces is not SQLi and folds to its first 5 classes; every filling of each benign shape over 12 words x 6 numbers is not SQLi; all cases non-trivial",
